@@ -107,6 +107,12 @@ macro_rules! per_set {
                     match S::PublicKey::try_from_bytes(b) { Ok(k) => { if k.into_bytes() != b { std::println!("DIFF {} public key round trip changes the bytes (pattern {})", stringify!($set), pat); $bad += 1; } }
                         Err(_) => { std::println!("DIFF {} public key bytes rejected (pattern {})", stringify!($set), pat); $bad += 1; } }
                 }
+                // private keys whose public parts (rho, K, tr) were altered are still accepted and must round-trip bit-exactly
+                for pos in [3usize, 40, 64, 100, 127] {
+                    let mut b = skb; b[pos] ^= 0x20;
+                    match S::PrivateKey::try_from_bytes(b) { Ok(k) => { if k.into_bytes() != b { std::println!("DIFF {} private key with byte {} altered does not serialise back to the same bytes", stringify!($set), pos); $bad += 1; } }
+                        Err(_) => { std::println!("DIFF {} private key with byte {} altered rejected", stringify!($set), pos); $bad += 1; } }
+                }
                 // private keys: extremal in-range coefficient patterns built with the reference encoder
                 for pat in 0..4 {
                     let top = 1i64 << 12;
@@ -132,6 +138,36 @@ fn run_all(what: &str) {
     per_set!(ml_dsa_87, P87, bad, stats, what);
     std::println!("STATS what={} loop_iterations={} rejections_first_test={} rejections_second_test={}", what, stats.0, stats.1, stats.2);
     assert!(bad == 0, "VERIF-PROPERTY-VIOLATED differential({}): {} disagreement(s) with the FIPS 204 reference", what, bad);
+}
+
+macro_rules! keygen_search {
+    ($set:ident, $p:expr, $bad:ident) => {{
+        use crate::$set as S;
+        let p: Params = $p;
+        for ctr in 0..(N_SEEDS as u64) {
+            let mut xi = [0u8; 32]; xi[..8].copy_from_slice(&(ctr.wrapping_add(SEED << 20)).to_le_bytes());
+            let r = std::panic::catch_unwind(|| { let (pk, sk) = S::KG::keygen_from_seed(&xi); let d = sk.get_public_key().into_bytes(); (pk.into_bytes(), sk.into_bytes(), d) });
+            match r {
+                Err(_) => { std::println!("DIFF {} keygen_from_seed panics, xi={:02x?}", stringify!($set), xi); $bad += 1; }
+                Ok((pkb, skb, d)) => {
+                    if d != pkb {
+                        let (rpk, rsk) = refimpl::keygen_internal(&p, &xi);
+                        if pkb.to_vec() != rpk || skb.to_vec() != rsk { std::println!("DIFF {} keygen differs from FIPS 204 KeyGen_internal (found by generated-vs-derived filter), xi={:02x?}", stringify!($set), xi); $bad += 1; }
+                        if d.to_vec() != rpk { std::println!("DIFF {} derived pk differs from FIPS 204 pk, xi={:02x?}", stringify!($set), xi); $bad += 1; }
+                    }
+                }
+            }
+            if $bad > 4 { break; }
+        }
+    }};
+}
+#[test]
+fn diff_keygen_search() {
+    let mut bad = 0u32;
+    keygen_search!(ml_dsa_44, P44, bad);
+    keygen_search!(ml_dsa_65, P65, bad);
+    keygen_search!(ml_dsa_87, P87, bad);
+    assert!(bad == 0, "VERIF-PROPERTY-VIOLATED differential(keygen_search): {} disagreement(s) with the FIPS 204 reference", bad);
 }
 #[test] fn diff_keygen() { run_all("keygen") }
 #[test] fn diff_sign() { run_all("sign") }
